@@ -30,6 +30,7 @@ func init() {
 		c.rulesC03(a, c.lockAnalysis())
 		c.rulesR3net()
 		c.rulesR3resolver()
+		c.rulesR4limit(a)
 		c.rulesR3batch3("C02")
 		// a vetoed state may be dropped from the target (instead of cancelling
 		// the whole transition) only for an Auto state of an auto mutation:
@@ -120,6 +121,7 @@ func init() {
 			c.rulesC06x(a)
 			c.rulesC06reuse()
 			c.rulesR3subs()
+			c.rulesR4scanall()
 			c.rulesR3misc("C06")
 			c.rulesR3flush()
 			c.rulesR3whentime()
@@ -136,6 +138,8 @@ func init() {
 			c.rulesC13(a, c.lockAnalysis())
 			c.rulesC13grace()
 			c.rulesR3parent()
+			c.rulesR4ctxret()
+			c.rulesR4loopexit()
 			c.rulesR3misc("C13")
 			c.rulesR3misc("C06") // C06.close: a waiter collected but never closed survives Dispose
 			c.rulesC13send(c.lockAnalysis())
@@ -156,6 +160,7 @@ func init() {
 			c.rulesC08nb()
 			c.rulesR3mark()
 			c.rulesR3neg()
+			c.rulesR4space()
 			c.rule("C08.imm", "fault recovery never mutates in place a slice aliasing Machine.activeStates (the old set is needed to decide which states tick during rollback)")
 			c.inPlaceAliasLint("C08.imm", a.fActive, []string{pm}, 5)
 		}
@@ -184,6 +189,7 @@ func init() {
 			c.rulesC02x(a)
 			c.rulesC02grow()
 			c.rulesR3resolver()
+			c.rulesR4resolver()
 			c.rulesR3batch3("C02")
 		}
 	})
@@ -198,6 +204,7 @@ func init() {
 		c.rulesC09(c.lockAnalysis())
 		c.rulesC09x()
 		c.rulesR3push()
+		c.rulesR4nochange()
 		c.rulesR3rpc2()
 	})
 	register("C10", propInfo{
@@ -231,6 +238,7 @@ func init() {
 		Trusted:     commonTrusted,
 	}, func(c *Ctx) {
 		c.rulesC18()
+		c.rulesR4callord()
 		c.rulesC18dflt()
 		c.rulesC18flat()
 		c.rulesR3batch3("C18")
@@ -256,6 +264,7 @@ func init() {
 			c.rulesC02x(a)
 			c.rulesC02grow()
 			c.rulesR3resolver()
+			c.rulesR4resolver()
 			c.rulesR3batch3("C02")
 		}
 	})
@@ -271,6 +280,8 @@ func init() {
 		c.rulesC20deep()
 		c.rulesR3ask()
 		c.rulesR3bounds()
+		c.rulesR4scanall()
+		c.rulesR4clone()
 		c.rulesR3helpers()
 		c.rulesR3batch3("C20")
 	})
@@ -297,6 +308,7 @@ func init() {
 		c.rulesC16()
 		c.rulesC16buf()
 		c.rulesC16back()
+		c.rulesR4outbox()
 		c.rulesR3batch3("C16")
 	})
 }
